@@ -101,305 +101,347 @@ type c13Claim struct {
 
 func (w *c13World) sessionStart(h int64) int64 { return ((h-1)/w.bps)*w.bps + 1 }
 
+var c13AllTraffic = []string{"dispatch", "dispatch", "abciApp", "abciApp", "abciNode", "abciValidators", "abciApps", "rpcApp", "rpcNode", "rpcNodes", "rpcApps", "rpcValByChain", "rpcClaims", "rpcParams",
+	"abciDispatch", "abciDispatch", "mempoolCheckTx", "mempoolSimulate"}
+
+// c11Traffic: what C11 quantifies over - CheckTx, simulation and queries (no application-method dispatch)
+var c11Traffic = []string{"mempoolCheckTx", "mempoolCheckTx", "mempoolSimulate", "mempoolSimulate", "mempoolSimulate", "abciDispatch", "abciDispatch", "abciApp", "abciNode", "abciValidators", "abciApps",
+	"rpcApp", "rpcNode", "rpcValByChain", "rpcClaims", "rpcParams"}
+
 func TestC13(t *testing.T) {
 	harness.Check(t, "C13",
 		"generated world (2-4 nodes all in every session, 2 apps, blocks-per-session 2-4) and a history of 14-30 blocks with claims + proofs (relay factory), app edit-stake / begin-unstake "+
 			"/ transfer, node edit-stake (chains) / downtime jail / unjail, sends, and restarts; node A additionally serves generated traffic between the ABCI calls: dispatch for current and "+
-			"past sessions, RPC queries and ABCI custom queries (applications, nodes, validators, claims, params) at latest and historical heights; node B none. Oracle: equal app hash / tx "+
+			"past sessions (application method and ABCI query route), RPC queries and ABCI custom queries (applications, nodes, validators, claims, params) at latest and historical heights, CheckTx and "+
+			"/app/simulate of the block's own transactions (claims and proofs included) before they are delivered; node B none. Oracle: equal app hash / tx "+
 			"results / validator updates per block and equal final store dumps. non-trivial = traffic touched an application, node or session that a LATER block's transaction reads "+
 			"(dispatch followed by a claim for that session; application/node query at a past height followed by a tx on that object; any of these right after a restart)",
-		map[string]float64{"dispatch-then-claim-same-session": 0.3, "historical-object-query-then-tx": 0.4, "restart": 0.5, "claim-accepted": 0.5, "proof-accepted": 0.2},
-		func(rt *rapid.T, c *harness.Case) {
-			w := newC13World(rt)
-			nblocks := rapid.IntRange(14, 30).Draw(rt, "nBlocks")
-			start := int64(w.spec.Warmup) // histories start at height Warmup+1 (no setup block: no ViaTx nodes, no multisig)
-			// ---- generate the script (inputs only) ----
-			type blockScript struct {
-				dt      time.Duration
-				absent  map[string]bool
-				txs     []c13Action
-				traffic [][]c13Action // per slot (0 = before BeginBlock, i+1 after tx i, last = before Commit)
-				restart bool
+		map[string]float64{"dispatch-then-claim-same-session": 0.3, "historical-object-query-then-tx": 0.4, "restart": 0.5, "claim-accepted": 0.5, "proof-accepted": 0.2, "mempool-traffic": 0.3},
+		c13Body("C13/block-result-differs-with-traffic", "C13/final-state-differs-with-traffic", c13AllTraffic))
+}
+
+// TestC11Claims is the C11 differential on histories with relay claims and proofs (the transactions whose validation
+// reads past heights through ctx.PrevCtx and the session / validators-by-chain caches): the noise is restricted to what
+// C11 names - CheckTx and simulation of the block's own transactions before delivery, and queries at any height.
+func TestC11Claims(t *testing.T) {
+	harness.Check(t, "C11",
+		"[claims and proofs] the C13 world and history generator (14-30 blocks with relay claims + proofs, stake changes, jailing, restarts); node A additionally receives, between the ABCI calls, "+
+			"CheckTx and /app/simulate of the block's own transactions before they are delivered and ABCI / RPC queries (incl. the dispatch querier) at latest and past heights; node B none. "+
+			"Oracle: equal per-block results and final store dumps. non-trivial = as C13 (traffic touched an object or session a later transaction reads)",
+		map[string]float64{"restart": 0.5, "claim-accepted": 0.5, "proof-accepted": 0.2, "mempool-traffic": 0.5},
+		c13Body("C11/claims/block-result-differs-with-noise", "C11/claims/final-state-differs-with-noise", c11Traffic))
+}
+
+func c13Body(sigBlock, sigFinal string, kinds []string) func(rt *rapid.T, c *harness.Case) {
+	return func(rt *rapid.T, c *harness.Case) {
+		w := newC13World(rt)
+		nblocks := rapid.IntRange(14, 30).Draw(rt, "nBlocks")
+		start := int64(w.spec.Warmup) // histories start at height Warmup+1 (no setup block: no ViaTx nodes, no multisig)
+		// ---- generate the script (inputs only) ----
+		type blockScript struct {
+			dt      time.Duration
+			absent  map[string]bool
+			txs     []c13Action
+			traffic [][]c13Action // per slot (0 = before BeginBlock, i+1 after tx i, last = before Commit)
+			restart bool
+		}
+		var script []blockScript
+		var claims []c13Claim
+		victim := rapid.IntRange(0, len(w.nodes)-1).Draw(rt, "victim")
+		touchedApp := map[int]int{}     // app index -> block index of last historical/any traffic touching it
+		touchedNode := map[int]int{}    // node index -> block
+		dispatched := map[string]bool{} // "app/chain/sbh"
+		interesting := false
+		for b := 0; b < nblocks; b++ {
+			h := start + int64(b) + 1
+			bs := blockScript{dt: time.Duration(rapid.SampledFrom([]int{1, 1, 5, 20, 70}).Draw(rt, "dt")) * time.Second, absent: map[string]bool{}}
+			if rapid.IntRange(0, 2).Draw(rt, "victimAbsent") > 0 {
+				bs.absent[hex.EncodeToString(chain.Addr(w.nodes[victim]))] = true
 			}
-			var script []blockScript
-			var claims []c13Claim
-			victim := rapid.IntRange(0, len(w.nodes)-1).Draw(rt, "victim")
-			touchedApp := map[int]int{}     // app index -> block index of last historical/any traffic touching it
-			touchedNode := map[int]int{}    // node index -> block
-			dispatched := map[string]bool{} // "app/chain/sbh"
-			interesting := false
-			for b := 0; b < nblocks; b++ {
-				h := start + int64(b) + 1
-				bs := blockScript{dt: time.Duration(rapid.SampledFrom([]int{1, 1, 5, 20, 70}).Draw(rt, "dt")) * time.Second, absent: map[string]bool{}}
-				if rapid.IntRange(0, 2).Draw(rt, "victimAbsent") > 0 {
-					bs.absent[hex.EncodeToString(chain.Addr(w.nodes[victim]))] = true
+			if b > 2 && rapid.IntRange(0, 5).Draw(rt, "restart") == 0 {
+				bs.restart = true
+				c.Label("restart")
+			}
+			ntx := rapid.IntRange(0, 3).Draw(rt, "nTx")
+			for i := 0; i < ntx; i++ {
+				kind := rapid.SampledFrom([]string{"claim", "claim", "proof", "proof", "appEdit", "appUnstake", "appTransfer", "nodeEdit", "nodeUnjail", "send"}).Draw(rt, "txKind")
+				a := c13Action{kind: kind, node: rapid.IntRange(0, len(w.nodes)-1).Draw(rt, "node"), app: rapid.IntRange(0, 1).Draw(rt, "app"),
+					chain: rapid.SampledFrom([]string{"0001", "0021"}).Draw(rt, "chain")}
+				switch kind {
+				case "claim":
+					// a session that has ended (usually) or is still running (sometimes)
+					back := int64(rapid.IntRange(0, 3).Draw(rt, "sessionsBack"))
+					a.sbh = w.sessionStart(h) - back*w.bps
+					if a.sbh < 1 {
+						a.sbh = 1
+					}
+					a.total = rapid.IntRange(5, 9).Draw(rt, "total")
+					a.claim = len(claims)
+					claims = append(claims, c13Claim{node: a.node, app: a.app, chain: a.chain, sbh: a.sbh})
+					a.desc = fmt.Sprintf("claim#%d node%d app%d %s sbh=%d total=%d", a.claim, a.node, a.app, a.chain, a.sbh, a.total)
+					if dispatched[fmt.Sprintf("%d/%s/%d", a.app, a.chain, a.sbh)] {
+						c.Label("dispatch-then-claim-same-session")
+						interesting = true
+					}
+				case "proof":
+					if len(claims) == 0 {
+						a.kind, a.amt = "send", 1
+						a.desc = "send 1 node->app (no claim yet)"
+						break
+					}
+					a.claim = rapid.IntRange(0, len(claims)-1).Draw(rt, "whichClaim")
+					a.desc = fmt.Sprintf("proof for claim#%d", a.claim)
+				case "appEdit":
+					a.amt = 50_000_000 + int64(rapid.IntRange(1, 40).Draw(rt, "bump"))*1_000_000
+					a.desc = fmt.Sprintf("appEdit app%d stake=%d", a.app, a.amt)
+				case "appUnstake":
+					a.desc = fmt.Sprintf("appUnstake app%d", a.app)
+				case "appTransfer":
+					a.desc = fmt.Sprintf("appTransfer app%d -> fresh%d", a.app, a.node%2)
+				case "nodeEdit":
+					a.amt = int64(rapid.IntRange(1, 2).Draw(rt, "nChains"))
+					a.desc = fmt.Sprintf("nodeEdit node%d chains=%d", a.node, a.amt)
+				case "nodeUnjail":
+					a.node = victim
+					a.desc = fmt.Sprintf("nodeUnjail node%d", a.node)
+				default:
+					a.amt = int64(rapid.IntRange(1, 100000).Draw(rt, "amt"))
+					a.desc = fmt.Sprintf("send %d node%d->app%d", a.amt, a.node, a.app)
 				}
-				if b > 2 && rapid.IntRange(0, 5).Draw(rt, "restart") == 0 {
-					bs.restart = true
-					c.Label("restart")
+				if kind == "appEdit" || kind == "appUnstake" || kind == "appTransfer" || kind == "claim" {
+					if tb, ok := touchedApp[a.app]; ok && tb <= b {
+						c.Label("historical-object-query-then-tx")
+						interesting = true
+					}
 				}
-				ntx := rapid.IntRange(0, 3).Draw(rt, "nTx")
-				for i := 0; i < ntx; i++ {
-					kind := rapid.SampledFrom([]string{"claim", "claim", "proof", "proof", "appEdit", "appUnstake", "appTransfer", "nodeEdit", "nodeUnjail", "send"}).Draw(rt, "txKind")
-					a := c13Action{kind: kind, node: rapid.IntRange(0, len(w.nodes)-1).Draw(rt, "node"), app: rapid.IntRange(0, 1).Draw(rt, "app"),
-						chain: rapid.SampledFrom([]string{"0001", "0021"}).Draw(rt, "chain")}
-					switch kind {
-					case "claim":
-						// a session that has ended (usually) or is still running (sometimes)
-						back := int64(rapid.IntRange(0, 3).Draw(rt, "sessionsBack"))
-						a.sbh = w.sessionStart(h) - back*w.bps
+				if kind == "nodeEdit" || kind == "nodeUnjail" || kind == "claim" {
+					if tb, ok := touchedNode[a.node]; ok && tb <= b {
+						c.Label("historical-object-query-then-tx")
+						interesting = true
+					}
+				}
+				bs.txs = append(bs.txs, a)
+			}
+			bs.traffic = make([][]c13Action, len(bs.txs)+2)
+			for slot := range bs.traffic {
+				k := rapid.SampledFrom([]int{0, 0, 1, 2, 3}).Draw(rt, "nTraffic")
+				for i := 0; i < k; i++ {
+					kind := rapid.SampledFrom(kinds).Draw(rt, "trafficKind")
+					a := c13Action{kind: kind, node: rapid.IntRange(0, len(w.nodes)-1).Draw(rt, "tnode"), app: rapid.IntRange(0, 1).Draw(rt, "tapp"),
+						chain: rapid.SampledFrom([]string{"0001", "0021"}).Draw(rt, "tchain"), h: int64(rapid.IntRange(0, 6).Draw(rt, "back"))}
+					if kind == "dispatch" || kind == "abciDispatch" {
+						a.sbh = w.sessionStart(h-1) - int64(rapid.IntRange(0, 1).Draw(rt, "dsBack"))*w.bps
 						if a.sbh < 1 {
 							a.sbh = 1
 						}
-						a.total = rapid.IntRange(5, 9).Draw(rt, "total")
-						a.claim = len(claims)
-						claims = append(claims, c13Claim{node: a.node, app: a.app, chain: a.chain, sbh: a.sbh})
-						a.desc = fmt.Sprintf("claim#%d node%d app%d %s sbh=%d total=%d", a.claim, a.node, a.app, a.chain, a.sbh, a.total)
-						if dispatched[fmt.Sprintf("%d/%s/%d", a.app, a.chain, a.sbh)] {
-							c.Label("dispatch-then-claim-same-session")
-							interesting = true
+						dispatched[fmt.Sprintf("%d/%s/%d", a.app, a.chain, a.sbh)] = true
+						a.desc = fmt.Sprintf("@%d:%s app%d %s sbh=%d back=%d", slot, kind, a.app, a.chain, a.sbh, a.h)
+					} else if kind == "mempoolCheckTx" || kind == "mempoolSimulate" {
+						a.total = rapid.IntRange(0, 3).Draw(rt, "whichBlockTx")
+						a.desc = fmt.Sprintf("@%d:%s tx#%d of this block", slot, kind, a.total)
+						if len(bs.txs) > 0 {
+							c.Label("mempool-traffic")
 						}
-					case "proof":
-						if len(claims) == 0 {
-							a.kind, a.amt = "send", 1
-							a.desc = "send 1 node->app (no claim yet)"
-							break
-						}
-						a.claim = rapid.IntRange(0, len(claims)-1).Draw(rt, "whichClaim")
-						a.desc = fmt.Sprintf("proof for claim#%d", a.claim)
-					case "appEdit":
-						a.amt = 50_000_000 + int64(rapid.IntRange(1, 40).Draw(rt, "bump"))*1_000_000
-						a.desc = fmt.Sprintf("appEdit app%d stake=%d", a.app, a.amt)
-					case "appUnstake":
-						a.desc = fmt.Sprintf("appUnstake app%d", a.app)
-					case "appTransfer":
-						a.desc = fmt.Sprintf("appTransfer app%d -> fresh%d", a.app, a.node%2)
-					case "nodeEdit":
-						a.amt = int64(rapid.IntRange(1, 2).Draw(rt, "nChains"))
-						a.desc = fmt.Sprintf("nodeEdit node%d chains=%d", a.node, a.amt)
-					case "nodeUnjail":
-						a.node = victim
-						a.desc = fmt.Sprintf("nodeUnjail node%d", a.node)
-					default:
-						a.amt = int64(rapid.IntRange(1, 100000).Draw(rt, "amt"))
-						a.desc = fmt.Sprintf("send %d node%d->app%d", a.amt, a.node, a.app)
+					} else {
+						a.desc = fmt.Sprintf("@%d:%s app%d node%d %s back=%d", slot, kind, a.app, a.node, a.chain, a.h)
 					}
-					if kind == "appEdit" || kind == "appUnstake" || kind == "appTransfer" || kind == "claim" {
-						if tb, ok := touchedApp[a.app]; ok && tb <= b {
-							c.Label("historical-object-query-then-tx")
-							interesting = true
-						}
+					switch kind {
+					case "abciApp", "rpcApp", "abciApps", "rpcApps":
+						touchedApp[a.app] = b
+					case "abciNode", "rpcNode", "abciValidators", "rpcNodes", "rpcValByChain":
+						touchedNode[a.node] = b
 					}
-					if kind == "nodeEdit" || kind == "nodeUnjail" || kind == "claim" {
-						if tb, ok := touchedNode[a.node]; ok && tb <= b {
-							c.Label("historical-object-query-then-tx")
-							interesting = true
-						}
-					}
-					bs.txs = append(bs.txs, a)
+					bs.traffic[slot] = append(bs.traffic[slot], a)
 				}
-				bs.traffic = make([][]c13Action, len(bs.txs)+2)
-				for slot := range bs.traffic {
-					k := rapid.SampledFrom([]int{0, 0, 1, 2, 3}).Draw(rt, "nTraffic")
-					for i := 0; i < k; i++ {
-						kind := rapid.SampledFrom([]string{"dispatch", "dispatch", "abciApp", "abciApp", "abciNode", "abciValidators", "abciApps", "rpcApp", "rpcNode", "rpcNodes", "rpcApps", "rpcValByChain", "rpcClaims", "rpcParams", "abciDispatch", "abciDispatch"}).Draw(rt, "trafficKind")
-						a := c13Action{kind: kind, node: rapid.IntRange(0, len(w.nodes)-1).Draw(rt, "tnode"), app: rapid.IntRange(0, 1).Draw(rt, "tapp"),
-							chain: rapid.SampledFrom([]string{"0001", "0021"}).Draw(rt, "tchain"), h: int64(rapid.IntRange(0, 6).Draw(rt, "back"))}
-						if kind == "dispatch" || kind == "abciDispatch" {
-							a.sbh = w.sessionStart(h-1) - int64(rapid.IntRange(0, 1).Draw(rt, "dsBack"))*w.bps
-							if a.sbh < 1 {
-								a.sbh = 1
-							}
-							dispatched[fmt.Sprintf("%d/%s/%d", a.app, a.chain, a.sbh)] = true
-							a.desc = fmt.Sprintf("@%d:%s app%d %s sbh=%d back=%d", slot, kind, a.app, a.chain, a.sbh, a.h)
-						} else {
-							a.desc = fmt.Sprintf("@%d:%s app%d node%d %s back=%d", slot, kind, a.app, a.node, a.chain, a.h)
-						}
-						switch kind {
-						case "abciApp", "rpcApp", "abciApps", "rpcApps":
-							touchedApp[a.app] = b
-						case "abciNode", "rpcNode", "abciValidators", "rpcNodes", "rpcValByChain":
-							touchedNode[a.node] = b
-						}
-						bs.traffic[slot] = append(bs.traffic[slot], a)
-					}
-				}
-				script = append(script, bs)
 			}
-			for b, bs := range script {
-				s := fmt.Sprintf("b%d{dt=%s absent=%d restart=%v", b, bs.dt, len(bs.absent), bs.restart)
-				for _, a := range bs.txs {
-					s += " | " + a.desc
-				}
-				for _, sl := range bs.traffic {
-					for _, a := range sl {
-						s += " " + a.desc
-					}
-				}
-				c.Opf("%s}", s)
+			script = append(script, bs)
+		}
+		for b, bs := range script {
+			s := fmt.Sprintf("b%d{dt=%s absent=%d restart=%v", b, bs.dt, len(bs.absent), bs.restart)
+			for _, a := range bs.txs {
+				s += " | " + a.desc
 			}
-			if interesting {
-				c.NonTrivial()
+			for _, sl := range bs.traffic {
+				for _, a := range sl {
+					s += " " + a.desc
+				}
 			}
+			c.Opf("%s}", s)
+		}
+		if interesting {
+			c.NonTrivial()
+		}
 
-			// ---- execution ----
-			run := func(withTraffic bool) ([]chain.BlockResult, map[string][]chain.KV, int, int) {
-				w.ent = 0
-				n := chain.NewNode(&w.spec)
-				// a production node always runs with its own servicer key registered; this is what creates the global
-				// session cache that dispatch fills and claim validation reads
-				work, err := os.MkdirTemp(os.Getenv("VERIF_WORK"), "c13-")
-				if err != nil {
-					rt.Fatalf("mkdtemp: %v", err)
-				}
-				defer os.RemoveAll(work)
-				defer pocketTypes.CleanPocketNodes()
-				regN := 0
-				register := func() {
-					regN++
-					rf.RegisterServicer(chain.Key("c13-self"), fmt.Sprintf("%s/r%d", work, regN), 0)
-				}
-				register()
-				trees := map[int]*rf.Tree{}
-				var out []chain.BlockResult
-				okClaims, okProofs := 0, 0
-				mat := func(a c13Action) []byte {
-					nk, ak := w.nodes[a.node], w.apps[a.app]
-					switch a.kind {
-					case "claim":
-						ev := rf.EvidenceSet(rf.ProofParams{Token: rf.MintAAT(ak, w.client.PublicKey()), Client: w.client, ServicerPub: nk.PublicKey().RawString(),
-							Chain: a.chain, SessionHeight: a.sbh}, a.total, int64(1000*a.claim+1))
-						tree := rf.BuildTree(a.sbh, ev)
-						trees[a.claim] = tree
-						msg := rf.NewMsgClaim(rf.Header(ak.PublicKey(), a.chain, a.sbh), chain.Addr(nk), tree)
-						return chain.SignTx(w.spec.ChainID, msg, chain.DefaultFee, "", w.e(), nk)
-					case "proof":
-						cl := claims[a.claim]
-						tree := trees[a.claim]
-						if tree == nil {
-							// the claim tx has not been generated yet in this run: send instead
-							msg := &nodesTypes.MsgSend{FromAddress: chain.Addr(nk), ToAddress: chain.Addr(ak), Amount: sdk.NewInt(1)}
-							return chain.SignTx(w.spec.ChainID, msg, chain.DefaultFee, "", w.e(), nk)
-						}
-						ph := rf.ProofHeight(cl.sbh, w.window, w.bps)
-						idx := int64(0)
-						if eh, ok := rf.EntropyHash(n.BlockStore, ph); ok {
-							idx = rf.RequiredIndex(eh, rf.Header(w.apps[cl.app].PublicKey(), cl.chain, cl.sbh), tree.Total())
-						}
-						return chain.SignTx(w.spec.ChainID, rf.NewMsgProof(tree, idx), chain.DefaultFee, "", w.e(), w.nodes[cl.node])
-					case "appEdit":
-						msg := &appsTypes.MsgStake{PubKey: ak.PublicKey(), Chains: []string{"0001", "0021"}, Value: sdk.NewInt(a.amt)}
-						return chain.SignTx(w.spec.ChainID, msg, chain.DefaultFee, "", w.e(), ak)
-					case "appUnstake":
-						return chain.SignTx(w.spec.ChainID, &appsTypes.MsgBeginUnstake{Address: chain.Addr(ak)}, chain.DefaultFee, "", w.e(), ak)
-					case "appTransfer":
-						msg := &appsTypes.MsgStake{PubKey: w.fresh[a.node%2].PublicKey(), Chains: nil, Value: sdk.ZeroInt()}
-						return chain.SignTx(w.spec.ChainID, msg, chain.DefaultFee, "", w.e(), ak)
-					case "nodeEdit":
-						chains := []string{"0001", "0021"}[:a.amt]
-						st := w.spec.Nodes[a.node].Stake
-						msg := &nodesTypes.MsgStake{PublicKey: nk.PublicKey(), Chains: chains, Value: sdk.NewInt(st), ServiceUrl: "https://node.example:443", Output: chain.Addr(nk)}
-						return chain.SignTx(w.spec.ChainID, msg, chain.DefaultFee, "", w.e(), nk)
-					case "nodeUnjail":
-						return chain.SignTx(w.spec.ChainID, &nodesTypes.MsgUnjail{ValidatorAddr: chain.Addr(nk), Signer: chain.Addr(nk)}, chain.DefaultFee, "", w.e(), nk)
-					default:
-						msg := &nodesTypes.MsgSend{FromAddress: chain.Addr(nk), ToAddress: chain.Addr(ak), Amount: sdk.NewInt(a.amt)}
+		// ---- execution ----
+		run := func(withTraffic bool) ([]chain.BlockResult, map[string][]chain.KV, int, int) {
+			w.ent = 0
+			n := chain.NewNode(&w.spec)
+			// a production node always runs with its own servicer key registered; this is what creates the global
+			// session cache that dispatch fills and claim validation reads
+			work, err := os.MkdirTemp(os.Getenv("VERIF_WORK"), "c13-")
+			if err != nil {
+				rt.Fatalf("mkdtemp: %v", err)
+			}
+			defer os.RemoveAll(work)
+			defer pocketTypes.CleanPocketNodes()
+			regN := 0
+			register := func() {
+				regN++
+				rf.RegisterServicer(chain.Key("c13-self"), fmt.Sprintf("%s/r%d", work, regN), 0)
+			}
+			register()
+			trees := map[int]*rf.Tree{}
+			var out []chain.BlockResult
+			okClaims, okProofs := 0, 0
+			mat := func(a c13Action) []byte {
+				nk, ak := w.nodes[a.node], w.apps[a.app]
+				switch a.kind {
+				case "claim":
+					ev := rf.EvidenceSet(rf.ProofParams{Token: rf.MintAAT(ak, w.client.PublicKey()), Client: w.client, ServicerPub: nk.PublicKey().RawString(),
+						Chain: a.chain, SessionHeight: a.sbh}, a.total, int64(1000*a.claim+1))
+					tree := rf.BuildTree(a.sbh, ev)
+					trees[a.claim] = tree
+					msg := rf.NewMsgClaim(rf.Header(ak.PublicKey(), a.chain, a.sbh), chain.Addr(nk), tree)
+					return chain.SignTx(w.spec.ChainID, msg, chain.DefaultFee, "", w.e(), nk)
+				case "proof":
+					cl := claims[a.claim]
+					tree := trees[a.claim]
+					if tree == nil {
+						// the claim tx has not been generated yet in this run: send instead
+						msg := &nodesTypes.MsgSend{FromAddress: chain.Addr(nk), ToAddress: chain.Addr(ak), Amount: sdk.NewInt(1)}
 						return chain.SignTx(w.spec.ChainID, msg, chain.DefaultFee, "", w.e(), nk)
 					}
-				}
-				traffic := func(a c13Action) {
-					defer func() { _ = recover() }()
-					latest := n.App.LastBlockHeight()
-					qh := latest - a.h
-					if qh < 1 {
-						qh = 1
+					ph := rf.ProofHeight(cl.sbh, w.window, w.bps)
+					idx := int64(0)
+					if eh, ok := rf.EntropyHash(n.BlockStore, ph); ok {
+						idx = rf.RequiredIndex(eh, rf.Header(w.apps[cl.app].PublicKey(), cl.chain, cl.sbh), tree.Total())
 					}
-					pa := *n.App
-					appAddr, nodeAddr := chain.Addr(w.apps[a.app]), chain.Addr(w.nodes[a.node])
-					switch a.kind {
-					case "dispatch":
-						_, _ = pa.HandleDispatch(pocketTypes.SessionHeader{ApplicationPubKey: w.apps[a.app].PublicKey().RawString(), Chain: a.chain, SessionBlockHeight: a.sbh})
-					case "abciDispatch":
-						// the dispatch querier reached through the ABCI query route (Tendermint RPC abci_query), at any height
-						n.App.Query(abci.RequestQuery{Path: "custom/pocketcore/dispatch", Height: qh, Data: app.Codec().MustMarshalJSON(pocketTypes.QueryDispatchParams{
-							SessionHeader: pocketTypes.SessionHeader{ApplicationPubKey: w.apps[a.app].PublicKey().RawString(), Chain: a.chain, SessionBlockHeight: a.sbh}})})
-					case "abciApp":
-						n.App.Query(abci.RequestQuery{Path: "custom/application/application", Height: qh, Data: app.Codec().MustMarshalJSON(appsTypes.QueryAppParams{Address: appAddr})})
-					case "abciApps":
-						n.App.Query(abci.RequestQuery{Path: "custom/application/applications", Height: qh, Data: app.Codec().MustMarshalJSON(appsTypes.QueryApplicationsWithOpts{Page: 1, Limit: 100})})
-					case "abciNode":
-						n.App.Query(abci.RequestQuery{Path: "custom/pos/validator", Height: qh, Data: app.Codec().MustMarshalJSON(nodesTypes.QueryValidatorParams{Address: nodeAddr})})
-					case "abciValidators":
-						n.App.Query(abci.RequestQuery{Path: "custom/pos/validators", Height: qh, Data: app.Codec().MustMarshalJSON(nodesTypes.QueryValidatorsParams{Page: 1, Limit: 100, Blockchain: a.chain})})
-					case "rpcApp":
-						_, _ = pa.QueryApp(appAddr.String(), qh)
-					case "rpcApps":
-						_, _ = pa.QueryApps(qh, appsTypes.QueryApplicationsWithOpts{Page: 1, Limit: 100})
-					case "rpcNode":
-						_, _ = pa.QueryNode(nodeAddr.String(), qh)
-					case "rpcNodes":
-						_, _ = pa.QueryNodes(qh, nodesTypes.QueryValidatorsParams{Page: 1, Limit: 100, Blockchain: a.chain})
-					case "rpcValByChain":
-						_, _ = pa.QueryValidatorByChain(qh, a.chain)
-					case "rpcClaims":
-						_, _ = pa.QueryClaims(nodeAddr.String(), qh, 1, 100)
-					default:
-						_, _ = pa.QueryAllParams(qh)
-					}
-				}
-				for _, bs := range script {
-					if bs.restart {
-						n.Restart()
-						register()
-					}
-					do := func(slot int) {
-						if withTraffic {
-							for _, a := range bs.traffic[slot] {
-								traffic(a)
-							}
-						}
-					}
-					do(0)
-					var txs [][]byte
-					// txs are materialised against this node's own block store (proof index needs its block hashes)
-					n.BeginBlock(chain.Block{DT: bs.dt, Absent: bs.absent, Proposer: chain.Addr(w.nodes[0])})
-					for i, a := range bs.txs {
-						tx := mat(a)
-						txs = append(txs, tx)
-						r := n.DeliverTx(tx)
-						if !withTraffic && (a.kind == "claim" || a.kind == "proof") {
-							c.AddExtra(fmt.Sprintf("code_%s_%s_%d", a.kind, r.Codespace, r.Code), 1)
-						}
-						if r.Code == 0 && a.kind == "claim" {
-							okClaims++
-						}
-						if r.Code == 0 && a.kind == "proof" && trees[a.claim] != nil {
-							okProofs++
-						}
-						do(i + 1)
-					}
-					eb := n.EndBlock()
-					do(len(bs.txs) + 1)
-					out = append(out, n.Commit(eb))
-				}
-				return out, n.Dump(), okClaims, okProofs
-			}
-			refT, refD, okc, okp := run(false)
-			if okc > 0 {
-				c.Label("claim-accepted")
-			}
-			if okp > 0 {
-				c.Label("proof-accepted")
-			}
-			gotT, gotD, _, _ := run(true)
-			for i := range refT {
-				if gotT[i].String() != refT[i].String() {
-					c.Violation("C13/block-result-differs-with-traffic", "block b%d (height %d) differs:\n with traffic: %s\n without:      %s", i, refT[i].Height, gotT[i], refT[i])
-					return
+					return chain.SignTx(w.spec.ChainID, rf.NewMsgProof(tree, idx), chain.DefaultFee, "", w.e(), w.nodes[cl.node])
+				case "appEdit":
+					msg := &appsTypes.MsgStake{PubKey: ak.PublicKey(), Chains: []string{"0001", "0021"}, Value: sdk.NewInt(a.amt)}
+					return chain.SignTx(w.spec.ChainID, msg, chain.DefaultFee, "", w.e(), ak)
+				case "appUnstake":
+					return chain.SignTx(w.spec.ChainID, &appsTypes.MsgBeginUnstake{Address: chain.Addr(ak)}, chain.DefaultFee, "", w.e(), ak)
+				case "appTransfer":
+					msg := &appsTypes.MsgStake{PubKey: w.fresh[a.node%2].PublicKey(), Chains: nil, Value: sdk.ZeroInt()}
+					return chain.SignTx(w.spec.ChainID, msg, chain.DefaultFee, "", w.e(), ak)
+				case "nodeEdit":
+					chains := []string{"0001", "0021"}[:a.amt]
+					st := w.spec.Nodes[a.node].Stake
+					msg := &nodesTypes.MsgStake{PublicKey: nk.PublicKey(), Chains: chains, Value: sdk.NewInt(st), ServiceUrl: "https://node.example:443", Output: chain.Addr(nk)}
+					return chain.SignTx(w.spec.ChainID, msg, chain.DefaultFee, "", w.e(), nk)
+				case "nodeUnjail":
+					return chain.SignTx(w.spec.ChainID, &nodesTypes.MsgUnjail{ValidatorAddr: chain.Addr(nk), Signer: chain.Addr(nk)}, chain.DefaultFee, "", w.e(), nk)
+				default:
+					msg := &nodesTypes.MsgSend{FromAddress: chain.Addr(nk), ToAddress: chain.Addr(ak), Amount: sdk.NewInt(a.amt)}
+					return chain.SignTx(w.spec.ChainID, msg, chain.DefaultFee, "", w.e(), nk)
 				}
 			}
-			if d := chain.DiffDumps(gotD, refD); d != "" {
-				c.Violation("C13/final-state-differs-with-traffic", "final substore dumps differ: %s", d)
+			var blockTxs [][]byte // the current block's transactions, materialised before the block starts
+			traffic := func(a c13Action) {
+				defer func() { _ = recover() }()
+				latest := n.App.LastBlockHeight()
+				qh := latest - a.h
+				if qh < 1 {
+					qh = 1
+				}
+				pa := *n.App
+				appAddr, nodeAddr := chain.Addr(w.apps[a.app]), chain.Addr(w.nodes[a.node])
+				switch a.kind {
+				case "dispatch":
+					_, _ = pa.HandleDispatch(pocketTypes.SessionHeader{ApplicationPubKey: w.apps[a.app].PublicKey().RawString(), Chain: a.chain, SessionBlockHeight: a.sbh})
+				case "mempoolCheckTx":
+					if len(blockTxs) > 0 {
+						n.App.CheckTx(abci.RequestCheckTx{Tx: blockTxs[a.total%len(blockTxs)]})
+					}
+				case "mempoolSimulate":
+					if len(blockTxs) > 0 {
+						n.App.Query(abci.RequestQuery{Path: "/app/simulate", Data: blockTxs[a.total%len(blockTxs)], Height: qh})
+					}
+				case "abciDispatch":
+					// the dispatch querier reached through the ABCI query route (Tendermint RPC abci_query), at any height
+					n.App.Query(abci.RequestQuery{Path: "custom/pocketcore/dispatch", Height: qh, Data: app.Codec().MustMarshalJSON(pocketTypes.QueryDispatchParams{
+						SessionHeader: pocketTypes.SessionHeader{ApplicationPubKey: w.apps[a.app].PublicKey().RawString(), Chain: a.chain, SessionBlockHeight: a.sbh}})})
+				case "abciApp":
+					n.App.Query(abci.RequestQuery{Path: "custom/application/application", Height: qh, Data: app.Codec().MustMarshalJSON(appsTypes.QueryAppParams{Address: appAddr})})
+				case "abciApps":
+					n.App.Query(abci.RequestQuery{Path: "custom/application/applications", Height: qh, Data: app.Codec().MustMarshalJSON(appsTypes.QueryApplicationsWithOpts{Page: 1, Limit: 100})})
+				case "abciNode":
+					n.App.Query(abci.RequestQuery{Path: "custom/pos/validator", Height: qh, Data: app.Codec().MustMarshalJSON(nodesTypes.QueryValidatorParams{Address: nodeAddr})})
+				case "abciValidators":
+					n.App.Query(abci.RequestQuery{Path: "custom/pos/validators", Height: qh, Data: app.Codec().MustMarshalJSON(nodesTypes.QueryValidatorsParams{Page: 1, Limit: 100, Blockchain: a.chain})})
+				case "rpcApp":
+					_, _ = pa.QueryApp(appAddr.String(), qh)
+				case "rpcApps":
+					_, _ = pa.QueryApps(qh, appsTypes.QueryApplicationsWithOpts{Page: 1, Limit: 100})
+				case "rpcNode":
+					_, _ = pa.QueryNode(nodeAddr.String(), qh)
+				case "rpcNodes":
+					_, _ = pa.QueryNodes(qh, nodesTypes.QueryValidatorsParams{Page: 1, Limit: 100, Blockchain: a.chain})
+				case "rpcValByChain":
+					_, _ = pa.QueryValidatorByChain(qh, a.chain)
+				case "rpcClaims":
+					_, _ = pa.QueryClaims(nodeAddr.String(), qh, 1, 100)
+				default:
+					_, _ = pa.QueryAllParams(qh)
+				}
 			}
-		})
+			for _, bs := range script {
+				if bs.restart {
+					n.Restart()
+					register()
+				}
+				do := func(slot int) {
+					if withTraffic {
+						for _, a := range bs.traffic[slot] {
+							traffic(a)
+						}
+					}
+				}
+				// txs are materialised against this node's own block store (proof index needs its block hashes), all of them
+				// before the block starts: they are what the mempool holds (and CheckTx / simulate traffic refers to)
+				blockTxs = blockTxs[:0]
+				for _, a := range bs.txs {
+					blockTxs = append(blockTxs, mat(a))
+				}
+				do(0)
+				n.BeginBlock(chain.Block{DT: bs.dt, Absent: bs.absent, Proposer: chain.Addr(w.nodes[0])})
+				for i, a := range bs.txs {
+					tx := blockTxs[i]
+					r := n.DeliverTx(tx)
+					if !withTraffic && (a.kind == "claim" || a.kind == "proof") {
+						c.AddExtra(fmt.Sprintf("code_%s_%s_%d", a.kind, r.Codespace, r.Code), 1)
+					}
+					if r.Code == 0 && a.kind == "claim" {
+						okClaims++
+					}
+					if r.Code == 0 && a.kind == "proof" && trees[a.claim] != nil {
+						okProofs++
+					}
+					do(i + 1)
+				}
+				eb := n.EndBlock()
+				do(len(bs.txs) + 1)
+				out = append(out, n.Commit(eb))
+			}
+			return out, n.Dump(), okClaims, okProofs
+		}
+		refT, refD, okc, okp := run(false)
+		if okc > 0 {
+			c.Label("claim-accepted")
+		}
+		if okp > 0 {
+			c.Label("proof-accepted")
+		}
+		gotT, gotD, _, _ := run(true)
+		for i := range refT {
+			if gotT[i].String() != refT[i].String() {
+				c.Violation(sigBlock, "block b%d (height %d) differs:\n with traffic: %s\n without:      %s", i, refT[i].Height, gotT[i], refT[i])
+				return
+			}
+		}
+		if d := chain.DiffDumps(gotD, refD); d != "" {
+			c.Violation(sigFinal, "final substore dumps differ: %s", d)
+		}
+	}
 }
